@@ -11,6 +11,11 @@
 //! H(atom) = sha256(1 || bytes), H(pair) = sha256(2 || H(first) || H(rest)); own plain
 //! serialiser (mc::sx). Nothing of the reference calls into /repo.
 
+use chia_consensus::additions_and_removals::additions_and_removals;
+use chia_consensus::consensus_constants::TEST_CONSTANTS;
+use chia_consensus::flags::ConsensusFlags;
+use chia_consensus::run_block_generator::{get_coinspends_for_trusted_block, run_block_generator, run_block_generator2};
+use chia_protocol::Program;
 use clvm_traits::{ClvmEncoder, ToClvm, ToClvmError, clvm_curried_args};
 use clvm_utils::{
     CurriedProgram, PRECOMPUTED_HASHES, ToTreeHash, TreeCache, TreeHash, TreeHasher,
@@ -48,6 +53,7 @@ struct Acc {
     evals: u64,
     oc: BTreeMap<&'static str, u64>,
     viol: Vec<(String, Value, String)>,
+    per_sig: BTreeMap<String, u32>,
     dropped: u64,
 }
 
@@ -57,7 +63,10 @@ impl Acc {
     }
     fn bad(&mut self, sig: String, case: Value, detail: String) {
         *self.oc.entry("VIOLATION").or_insert(0) += 1;
-        if self.viol.len() < 24 {
+        // keep a few per root-cause class and shard; the rest is only counted
+        let n = self.per_sig.entry(sig.clone()).or_insert(0);
+        *n += 1;
+        if *n <= 3 && self.viol.len() < 60 {
             self.viol.push((sig, case, detail));
         } else {
             self.dropped += 1;
@@ -402,7 +411,8 @@ fn part_leaves(rep: &Report) {
         let mut acc = Acc::default();
         let x = &leaves[i];
         for j in 0..=n {
-            let y = if j == n { None } else { Some(&leaves[j]) };
+            // j == 0: x alone as a root; otherwise the pair (x . leaves[j-1])
+            let y = if j == 0 { None } else { Some(&leaves[j - 1]) };
             acc.evals += 1;
             let case = json!({"kind": "leaf", "x": x.to_json(), "y": y.map(Leaf::to_json)});
             match check_leaf_case(x, y) {
@@ -1063,9 +1073,6 @@ fn part_bfs(rep: &Report, depth: usize, max_states: usize, max_extras: usize) {
                 let e = exec_history(&hist, &dr);
                 if e.misses.is_empty() {
                     acc.ok(e.bucket);
-                    if hist.len() == 4 && rep.want_sample() && op as usize >= NROOTS && e.bucket.contains("answered from") {
-                        rep.sample(json!({"history": hist.iter().map(|o| op_name(*o)).collect::<Vec<_>>(), "cache_state_after": e.rendered}));
-                    }
                     out.push((e.key, St { hist }));
                 } else {
                     let case = json!({"kind": "bfs", "history": hist, "ops": hist.iter().map(|o| op_name(*o)).collect::<Vec<_>>()});
@@ -1086,6 +1093,11 @@ fn part_bfs(rep: &Report, depth: usize, max_states: usize, max_extras: usize) {
     rep.extra("bfs_level_sizes", json!(res.level_sizes));
     rep.extra("bfs_dedup_hits", json!(res.dedup_hits));
     rep.extra("bfs_states", json!(res.states));
+    // two rendered histories (fixed, so that the evidence does not depend on scheduling)
+    for hist in [vec![3u8, 4, NROOTS as u8 + 4, NROOTS as u8 + 1], vec![5, OP_ALLOC, NROOTS as u8 + 6, OP_ALLOC, NROOTS as u8 + 7, NROOTS as u8 + 3]] {
+        let e = exec_history(&hist, &dr);
+        rep.sample(json!({"history": hist.iter().map(|o| op_name(*o)).collect::<Vec<_>>(), "cache_state_after": e.rendered, "last_operation": e.bucket}));
+    }
     let fixpoint = res.level_sizes.last() == Some(&0);
     rep.extra("bfs_fixpoint_reached", json!(fixpoint));
     rep.extra("bfs_longest_shortest_history", json!(res.level_sizes.iter().rposition(|n| *n > 0).unwrap_or(0)));
@@ -1094,6 +1106,165 @@ fn part_bfs(rep: &Report, depth: usize, max_states: usize, max_extras: usize) {
     } else if !fixpoint {
         rep.cap(&format!("BFS depth bound {depth} reached before the state graph was complete"));
     }
+}
+
+// ---------------------------------------------------------------------------------------
+// the cache as the block validators use it: one TreeCache over all puzzle reveals of a generator
+
+const OP_F: u8 = 5;
+
+/// puzzle (f (q . (() . junk))): evaluates to the empty condition list, carries `junk` unevaluated
+fn puzzle_hash_reference(junk: &H) -> H {
+    let nil = h_atom(&[]);
+    let quoted = h_pair(&h_atom(&[1]), &h_pair(&nil, junk));
+    h_pair(&h_atom(&[OP_F]), &h_pair(&quoted, &nil))
+}
+
+fn spend_parent(i: usize) -> [u8; 32] {
+    [0xa0 + i as u8; 32]
+}
+
+/// returns (generator bytes, expected puzzle hash per spend)
+fn build_block(ctx: &mut TableCtx, t: &[(u8, u8)], n: usize, sel: &[usize], backrefs: bool) -> (Vec<u8>, Vec<H>) {
+    let (nodes, hs) = ctx.build(t, n);
+    let a = &mut ctx.a;
+    let nil = a.nil();
+    let one = a.one();
+    let five = a.new_small_number(u32::from(OP_F)).unwrap();
+    let mut spends = nil;
+    let mut want = Vec::new();
+    for (i, &j) in sel.iter().enumerate().rev() {
+        let inner = a.new_pair(nil, nodes[j]).unwrap();
+        let quoted = a.new_pair(one, inner).unwrap();
+        let tail = a.new_pair(quoted, nil).unwrap();
+        let puzzle = a.new_pair(five, tail).unwrap();
+        let parent = a.new_atom(&spend_parent(i)).unwrap();
+        // (parent puzzle amount solution)
+        let mut spend = a.new_pair(nil, nil).unwrap();
+        spend = a.new_pair(one, spend).unwrap();
+        spend = a.new_pair(puzzle, spend).unwrap();
+        spend = a.new_pair(parent, spend).unwrap();
+        spends = a.new_pair(spend, spends).unwrap();
+        want.push(puzzle_hash_reference(&hs[j]));
+    }
+    want.reverse();
+    let result = a.new_pair(spends, nil).unwrap();
+    let generator = a.new_pair(one, result).unwrap();
+    let bytes = if backrefs { node_to_bytes_backrefs(a, generator) } else { node_to_bytes(a, generator) }.expect("serialise generator");
+    (bytes, want)
+}
+
+fn check_block(bytes: &[u8], want: &[H]) -> Result<Vec<Miss>, String> {
+    let mut out = Vec::new();
+    let flags = ConsensusFlags::DONT_VALIDATE_SIGNATURE;
+    let blocks: &[&[u8]] = &[];
+    let coin_id = |i: usize| sha256(&[&spend_parent(i), &want[i], &[1u8]]);
+    let mismatch = |routine: &'static str, i: usize, what: &str, got: &[u8], exp: &[u8]| Miss {
+        routine,
+        kind: "wrong-hash",
+        detail: format!("{routine}: spend {i}: {what} {} but the definition gives {}", hex::encode(got), hex::encode(exp)),
+    };
+    // validators
+    for (routine, v2) in [("run_block_generator", false), ("run_block_generator2", true)] {
+        let r = catch(|| {
+            let sig = chia_bls::Signature::default();
+            if v2 {
+                run_block_generator2(bytes, blocks, 11_000_000_000, flags, &sig, None, &TEST_CONSTANTS)
+            } else {
+                run_block_generator(bytes, blocks, 11_000_000_000, flags, &sig, None, &TEST_CONSTANTS)
+            }
+        });
+        match r {
+            Err(p) => out.push(Miss { routine, kind: "panic", detail: format!("{routine} panicked: {p}") }),
+            Ok(Err(e)) => return Err(format!("{routine} rejected the harness generator {}: {e:?}", hex::encode(bytes))),
+            Ok(Ok((a2, conds))) => {
+                if conds.spends.len() != want.len() {
+                    return Err(format!("{routine} reports {} spends, expected {}", conds.spends.len(), want.len()));
+                }
+                for s in &conds.spends {
+                    let parent = a2.atom(s.parent_id);
+                    let i = (parent.as_ref()[0] - 0xa0) as usize;
+                    let ph = a2.atom(s.puzzle_hash);
+                    if ph.as_ref() != want[i] {
+                        out.push(mismatch(routine, i, "puzzle hash", ph.as_ref(), &want[i]));
+                    } else if s.coin_id.as_slice() != coin_id(i) {
+                        out.push(mismatch(routine, i, "coin id", s.coin_id.as_slice(), &coin_id(i)));
+                    }
+                }
+            }
+        }
+    }
+    let routine = "additions_and_removals";
+    match catch(|| additions_and_removals(bytes, blocks, flags, &TEST_CONSTANTS)) {
+        Err(p) => out.push(Miss { routine, kind: "panic", detail: format!("{routine} panicked: {p}") }),
+        Ok(Err(e)) => return Err(format!("{routine} rejected the harness generator: {e:?}")),
+        Ok(Ok((_add, rem))) => {
+            if rem.len() != want.len() {
+                return Err(format!("{routine} reports {} removals, expected {}", rem.len(), want.len()));
+            }
+            for (id, coin) in &rem {
+                let i = (coin.parent_coin_info.as_slice()[0] - 0xa0) as usize;
+                if coin.puzzle_hash.as_slice() != want[i] {
+                    out.push(mismatch(routine, i, "puzzle hash", coin.puzzle_hash.as_slice(), &want[i]));
+                } else if id.as_slice() != coin_id(i) {
+                    out.push(mismatch(routine, i, "coin id", id.as_slice(), &coin_id(i)));
+                }
+            }
+        }
+    }
+    let routine = "get_coinspends_for_trusted_block";
+    match catch(|| get_coinspends_for_trusted_block(&TEST_CONSTANTS, &Program::from(bytes.to_vec()), blocks, flags)) {
+        Err(p) => out.push(Miss { routine, kind: "panic", detail: format!("{routine} panicked: {p}") }),
+        Ok(Err(e)) => return Err(format!("{routine} rejected the harness generator: {e:?}")),
+        Ok(Ok(spends)) => {
+            if spends.len() != want.len() {
+                return Err(format!("{routine} reports {} spends, expected {}", spends.len(), want.len()));
+            }
+            for cs in &spends {
+                let i = (cs.coin.parent_coin_info.as_slice()[0] - 0xa0) as usize;
+                if cs.coin.puzzle_hash.as_slice() != want[i] {
+                    out.push(mismatch(routine, i, "puzzle hash", cs.coin.puzzle_hash.as_slice(), &want[i]));
+                }
+            }
+        }
+    }
+    Ok(out)
+}
+
+/// every table x every list of `spends` puzzles carrying the pairs of the table x {plain, back-reference} generator
+fn part_blocks(rep: &Report, n: usize, k: usize, spends: usize) {
+    let total = table_count(n, k);
+    let lists = (n as u64).pow(spends as u32);
+    let chunk = 16u64;
+    (0..total.div_ceil(chunk)).into_par_iter().for_each(|c| {
+        let mut acc = Acc::default();
+        let mut ctx = TableCtx::new(k);
+        let mut sel = vec![0usize; spends];
+        for idx in c * chunk..((c + 1) * chunk).min(total) {
+            let t = decode_table(idx, n, k);
+            for l in 0..lists {
+                let mut x = l;
+                for s in sel.iter_mut() {
+                    *s = (x % n as u64) as usize;
+                    x /= n as u64;
+                }
+                for backrefs in [false, true] {
+                    acc.evals += 1;
+                    let (bytes, want) = build_block(&mut ctx, &t, n, &sel, backrefs);
+                    match check_block(&bytes, &want) {
+                        Ok(m) if m.is_empty() => acc.ok(if backrefs { "block/back-reference generator: 4 consumers ok" } else { "block/plain generator: 4 consumers ok" }),
+                        Ok(m) => {
+                            let case = json!({"kind": "block", "n": n, "k": k, "index": idx, "spends": sel, "backrefs": backrefs, "table": render_table(&t, n, k)});
+                            acc.misses("block", m, &case);
+                        }
+                        Err(e) => rep.machinery_error(&e),
+                    }
+                }
+            }
+        }
+        acc.flush(rep);
+    });
+    rep.extra_add(&format!("blocks_n{n}_k{k}_spends{spends}"), total * lists * 2);
 }
 
 // ---------------------------------------------------------------------------------------
@@ -1358,12 +1529,14 @@ fn run(rep: &Report) {
     if let Ok(g) = std::env::var("C17_GRAPHS") {
         graphs = g.split(',').filter_map(|x| x.split_once('x')).map(|(n, k)| (n.parse().unwrap(), k.parse().unwrap())).collect();
     }
+    // (n, k, spends per generator)
+    let blocks: Vec<(usize, usize, usize)> = t.pick(vec![(1, 2, 3), (2, 2, 3), (3, 2, 3)], vec![(1, 2, 3), (2, 2, 4), (3, 2, 4), (4, 2, 3)]);
     let bfs_depth = std::env::var("C17_DEPTH").ok().and_then(|s| s.parse().ok()).unwrap_or(64);
     let bfs_states = t.pick(2_000_000, 12_000_000);
     let max_extras: usize = std::env::var("C17_EXTRAS").ok().and_then(|s| s.parse().ok()).unwrap_or(t.pick(2, 3));
 
     rep.set_rule(&format!(
-        "E: the 24 precomputed constants; every leaf of a {}-element alphabet (contents nil, 00..1a, 7f, 80, ff, 2..5-byte integers around the small-atom limit, strings of 31..1000 bytes; constructors nil/one/new_atom/new_small_number/new_number/new_substr/new_concat, i.e. both the small-integer and the heap representation of the same bytes) as a root and in every ordered pair (x . y); every small-integer atom 0..{small_end}; every pair table p_i = (c_l . c_r), c in leaves + earlier pairs (all DAGs incl. unshared trees, duplicated equal pairs and unreachable pairs) for (pairs, leaves, serialisations) in {tables:?}, root = last pair; 10^5-deep and 10^5-long lists, perfect DAGs of depth 17/{}, a Fibonacci DAG; currying of every (program, args) over {} values for 0..4 arguments and over 4 values for 5..6. H: for (pairs, leaves) in {graphs:?} the COMPLETE state graph of every table under visit_tree(p_i)/tree_hash_cached(p_i) on one shared TreeCache (BFS until no new cache state appears: histories of any length); for (pairs, leaves, length) in {seqs:?} every table x every operation sequence of that length; the complete state graph (depth bound {bfs_depth}, fixpoint reported) of visit_tree/tree_hash_cached on the roots {{atom, p0..p4, e1..e{max_extras}}} of a fixed DAG plus 'allocate the next pair e_j' (pairs created after the cache was used; p5 never visited directly). States are deduplicated on (pairs allocated, pairs[], hashes[]) read through hook H2 (exact, no hashing). Oracle on every transition: returned hash = definition, and TreeCache::get of every pair is None or the definition's hash. distinct_nontrivial counts leaves, big structures, curry cases and fixed-DAG states only (tables, table-graph states and sequences are counted in the extras)",
+        "E: the 24 precomputed constants; every leaf of a {}-element alphabet (contents nil, 00..1a, 7f, 80, ff, 2..5-byte integers around the small-atom limit, strings of 31..1000 bytes; constructors nil/one/new_atom/new_small_number/new_number/new_substr/new_concat, i.e. both the small-integer and the heap representation of the same bytes) as a root and in every ordered pair (x . y); every small-integer atom 0..{small_end}; every pair table p_i = (c_l . c_r), c in leaves + earlier pairs (all DAGs incl. unshared trees, duplicated equal pairs and unreachable pairs) for (pairs, leaves, serialisations) in {tables:?}, root = last pair; 10^5-deep and 10^5-long lists, perfect DAGs of depth 17/{}, a Fibonacci DAG; currying of every (program, args) over {} values for 0..4 arguments and over 4 values for 5..6; for (pairs, leaves, spends) in {blocks:?} every table x every list of that many spends whose puzzle reveals (f (q . (() . p_i))) carry the table's pairs, as a plain and as a back-reference generator, through run_block_generator, run_block_generator2, additions_and_removals and get_coinspends_for_trusted_block (puzzle hash and coin id of every spend). H: for (pairs, leaves) in {graphs:?} the COMPLETE state graph of every table under visit_tree(p_i)/tree_hash_cached(p_i) on one shared TreeCache (BFS until no new cache state appears: histories of any length); for (pairs, leaves, length) in {seqs:?} every table x every operation sequence of that length; the complete state graph (depth bound {bfs_depth}, fixpoint reported) of visit_tree/tree_hash_cached on the roots {{atom, p0..p4, e1..e{max_extras}}} of a fixed DAG plus 'allocate the next pair e_j' (pairs created after the cache was used; p5 never visited directly). States are deduplicated on (pairs allocated, pairs[], hashes[]) read through hook H2 (exact, no hashing). Oracle on every transition: returned hash = definition, and TreeCache::get of every pair is None or the definition's hash. distinct_nontrivial counts leaves, big structures, curry cases and fixed-DAG states only (tables, table-graph states and sequences are counted in the extras)",
         leaf_alphabet().len(),
         t.pick(12, 20),
         curry_values(t).len(),
@@ -1398,6 +1571,10 @@ fn run(rep: &Report) {
     lap("big");
     part_curry(rep);
     lap("curry");
+    for (n, k, sp) in &blocks {
+        part_blocks(rep, *n, *k, *sp);
+        lap(&format!("blocks n={n} k={k} spends={sp}"));
+    }
     for (n, k) in &graphs {
         part_table_graphs(rep, *n, *k);
         lap(&format!("table graphs n={n} k={k}"));
@@ -1462,6 +1639,20 @@ fn replay(case: &Value) -> String {
             let (nodes, hs) = ctx.build(&t, n);
             let names: Vec<String> = ops.iter().map(|o| if (*o as usize) < n { format!("visit_tree(p{o})") } else { format!("tree_hash_cached(p{})", *o as usize - n) }).collect();
             format!("{}\n{}\n{}", render_table(&t, n, k), names.join("; "), describe(run_sequence(&ctx.a, &nodes, &hs, n, &ops)))
+        }
+        "block" => {
+            let (n, k) = (case["n"].as_u64().unwrap() as usize, case["k"].as_u64().unwrap() as usize);
+            let idx = case["index"].as_u64().unwrap();
+            let sel: Vec<usize> = case["spends"].as_array().unwrap().iter().map(|o| o.as_u64().unwrap() as usize).collect();
+            let backrefs = case["backrefs"].as_bool().unwrap();
+            let mut ctx = TableCtx::new(k);
+            let t = decode_table(idx, n, k);
+            let (bytes, want) = build_block(&mut ctx, &t, n, &sel, backrefs);
+            let r = match check_block(&bytes, &want) {
+                Ok(m) => describe(m),
+                Err(e) => format!("machinery: {e}"),
+            };
+            format!("{}\nspends carry {:?}\ngenerator {}\nexpected puzzle hashes {:?}\n{r}", render_table(&t, n, k), sel, hex::encode(&bytes), want.iter().map(hx).collect::<Vec<_>>())
         }
         "bfs" => {
             let hist: Vec<u8> = case["history"].as_array().unwrap().iter().map(|o| o.as_u64().unwrap() as u8).collect();
